@@ -285,6 +285,7 @@ def stream(e, d, table, iface, *, split="train", shuffle=0, T=2, repeat=False, p
             finally:
                 DI.tf = old_tf
             mon.tf_ops = ds.names()
+            mon.tf_dataset = ds  # tf.data calls the generator function once per iteration of the dataset object
             it = ds.run_generator() if ds.source == "from_generator" else iter(())
         else:
             raise AssertionError(iface)
